@@ -39,7 +39,7 @@ def dedupe(ctx, traces, out):
     """Runs with identical recorded text are validated once (validation is a function of the text)."""
     # the kind of a failing member's error and error messages are not read by the specification
     # (a failure is a failure): runs that differ only there are validated once, too
-    strip = re.compile(r'"errkind":\[[^\]]*\],?|"spin":\d+,?|"desc":\[[^\]]*\],?|"msg":"(?:[^"\\]|\\.)*",?')
+    strip = re.compile(r'"errkind":\[[^\]]*\],?|"spin":\d+,?|"nest":\[[^\]]*\],?|"desc":\[[^\]]*\],?|"msg":"(?:[^"\\]|\\.)*",?')
     strip2 = re.compile(r'"content":\[[^\]]*\],?|"clen":\[[^\]]*\],?')
     seen = {}
     uniq = {}
@@ -84,6 +84,10 @@ def count(ctx, uniq):
             e = json.loads(l)
             op = e['op']
             if op == 'reset':
+                for i, nk in enumerate(e['nest']):
+                    if nk:
+                        kk = 'member %d is itself a unifier (%s)' % (i, 'sequential' if nk.startswith('seq') else 'concurrent')
+                        sit[kk] = sit.get(kk, 0) + mult
                 for k, d, o in zip(e['content'], e['desc'], e['out']):
                     if o == 'ok':
                         kk = 'succeeding member answers with %s content, %s descriptor' % (k, d)
@@ -217,14 +221,14 @@ def run(ctx):
     ctx.cov['distinct_recorded_runs'] = len(uniq)
     ctx.cov['race_detector'] = not quick
     sit = ctx.cov['situations']
-    for need in tuple('runs of ' + e for e in ('GetBlob', 'GetBlobRange', 'GetManifest', 'ResolveBlob', 'ResolveManifest')) + ('returned ok0', 'returned ok1', 'returned err', 'returned cancelled', 'environment: close', 'environment: cancel', 'reader Close returned its error to the caller', 'reader closed cleanly', 'succeeding member answers with empty content, full descriptor', 'succeeding member answers with empty content, bare descriptor', 'succeeding member answers with one content, full descriptor', 'succeeding member answers with four content, bare descriptor', 'caller read the reader to EOF before closing', 'caller read a piece of the reader', 'a failing member answered first with its own context.Canceled/DeadlineExceeded', 'quiescence reached'):
+    for need in tuple('runs of ' + e for e in ('GetBlob', 'GetBlobRange', 'GetManifest', 'ResolveBlob', 'ResolveManifest')) + ('returned ok0', 'returned ok1', 'returned err', 'returned cancelled', 'environment: close', 'environment: cancel', 'reader Close returned its error to the caller', 'reader closed cleanly', 'member 0 is itself a unifier (sequential)', 'member 1 is itself a unifier (sequential)', 'member 0 is itself a unifier (concurrent)', 'member 1 is itself a unifier (concurrent)', 'succeeding member answers with empty content, full descriptor', 'succeeding member answers with empty content, bare descriptor', 'succeeding member answers with one content, full descriptor', 'succeeding member answers with four content, bare descriptor', 'caller read the reader to EOF before closing', 'caller read a piece of the reader', 'a failing member answered first with its own context.Canceled/DeadlineExceeded', 'quiescence reached'):
         if not sit.get(need):
             raise vlib.Machinery('the batch never reached the situation %r' % need)
     first = next(iter(uniq)).split('\n')
     ctx.cov['samples'] = [dict(tlc_exported_schedules=scheds[:3]), dict(recorded_run=[json.loads(l) for l in first if '"tau"' not in l])]
     # 4. TLC validates every distinct recorded run against the model
     judge(ctx, [ut], shard_lines=5000 if quick else 8000, label='ociunify concurrent reads vs OciUnifyConc')
-    ctx.assumptions += ['fake members built on ociregistry.Funcs: a call parks on a gate (or on its context), records the context it was given, answers with 0, 1 or 4 bytes of content under a full or a bare (no digest, no media type) descriptor and hands out a close-counting reader whose Close returns a scripted error or nil',
+    ctx.assumptions += ['fake members built on ociregistry.Funcs: a call parks on a gate (or on its context), records the context it was given, is either plain or itself an ociunify.New(fake, sibling failing at once) of either policy, answers with 0, 1 or 4 bytes of content under a full or a bare (no digest, no media type) descriptor and hands out a close-counting reader whose Close returns a scripted error or nil',
                         'goroutines still inside ociunify are counted from runtime.Stack (frames or creator in package ociunify) after waiting up to 5 s for them to finish',
                         'each internal step of the model (main, sender) is one channel operation of the code; what lies between sets monotone flags only',
                         'TLC, pcal and the Json/IOUtils community modules']
